@@ -692,6 +692,20 @@ pub fn sweep_bases() -> Vec<Plan> {
             vec![],
             true,
         ),
+        // a request enqueued between the segments of an idle reply (line-wise delivery, 1 ms
+        // apart): the interrupted receive() resumes a parked partial response
+        (
+            vec![vec![Op::Think { ms: 6 }, Op::Request { id: 1 }]],
+            vec![ChangeEvent { at_ms: 5, names: vec!["player".into(), "mixer".into()] }],
+            vec![(1, shape(1, 1, None, None, 1))],
+            true,
+        ),
+        (
+            vec![vec![Op::Think { ms: 7 }, Op::Cancel { op: Box::new(Op::Request { id: 1 }), after_ms: 0 }, Op::Request { id: 2 }]],
+            vec![ChangeEvent { at_ms: 5, names: vec!["player".into(), "mixer".into(), "update".into()] }],
+            vec![(1, shape(0, 0, None, None, 0)), (2, shape(0, 0, None, None, 0))],
+            true,
+        ),
     ];
     let nets: Vec<NetPolicy> = vec![
         NetPolicy::default(),
@@ -858,7 +872,7 @@ impl Check for C08 {
         trace_plan(case, oracle::check_c08)
     }
     fn rule(&self) -> String {
-        "fault enumeration + seeded search. Sweep (both tiers, all 78 base scenarios): for each small base scenario (13 scripts x 3 \
+        "fault enumeration + seeded search. Sweep (both tiers, all 90 base scenarios): for each small base scenario (15 scripts x 3 \
          network policies x 2 tokio seeds) a fault-free dry run fixes the server output length L, \
          the number of client writes W, the responses R and the instants of activity; then EVERY \
          server-output offset in [greeting_end, L] x {Cut, Garbage, ReadErr}, EVERY client write \
